@@ -110,7 +110,9 @@ def run(ctx, chk):
     rs = [e for e in rr.stores() if e.kind == "attr" and e.fam == "steps"]
     chk.ob("C06.reset-count", "reset: the step counter is set to 0 unconditionally",
            len(rs) == 1 and rs[0].value == C(0) and not [c for c in rs[0].ev.pc if c[0] != "fact"],
-           f"{[(rr.show(e.value), f_show(rr.cn.conj(e.ev.pc))) for e in rs]}", rr.fi.module.path)
+           f"{[(rr.show(e.value), f_show(rr.cn.conj(e.ev.pc))) for e in rs]}", rr.fi.module.path,
+           # one store of 0 that sits under a condition: decoded, whatever the condition reads
+           firm=(len(rs) == 1 and rs[0].value == C(0)))
     # ---- generative steps do not count
     d = envfacts.gstep_deep(ctx)
     bad = [e for e in d.stores() if e.kind == "attr" and e.fam == "steps"]
